@@ -726,6 +726,38 @@ def check_C17(run: Run):
         c2.merge_single_qubit_gates(); c2.decompose(O.os_decomposer("McKay"))
         run.count({"alias-check": _}, tag="aliasing")
         if W.diff(before, W.w_stmt(shared), 0.0): run.violation("a pass on one circuit modified a gate held by another circuit", {})
+    # gates handed to a decomposer and gates copied into another circuit are never modified by later passes
+    from opensquirrel.decomposer import Decomposer
+    from opensquirrel.mapper import HardcodedMapper
+    from opensquirrel.mapper.mapping import Mapping
+    for it in range(run.n(20, 200)):
+        src, _p = pool[rng.randrange(len(pool))]
+        c1 = Circuit.from_string(src)
+        n = c1.qubit_register_size
+        kept = []
+        inner = O.os_decomposer(rng.choice(["McKay", "ZYZ", "XYX", "CNOT"]))
+        class Recording(Decomposer):
+            def decompose(self, gate):
+                kept.append(gate); return inner.decompose(gate)
+        c1.decompose(Recording())
+        live = set(map(id, c1.ir.statements))
+        kept = [x for x in kept if id(x) not in live]           # only the gates that were replaced and left the circuit
+        before = [W.w_stmt(x) for x in kept]
+        perm = list(range(n)); rng.shuffle(perm)
+        if perm == sorted(perm) and n > 1: perm = perm[1:] + perm[:1]
+        c1.map(HardcodedMapper(n, Mapping(perm)))
+        run.count({"recording": it}, tag="aliasing")
+        if W.diff(before, [W.w_stmt(x) for x in kept], 0.0):
+            run.violation("gates that were handed to a decomposer (and replaced) were modified by a later map of the circuit", {"src": src, "perm": perm})
+        # copy gates through generator(*arguments) into a second circuit, map that one
+        c3 = Circuit.from_string(src); txt3 = str(c3); w3 = W.w_circuit(c3)
+        c4 = Circuit.from_string("version 3.0\nqubit[%d] q\n" % n)
+        for st in c3.ir.statements:
+            if getattr(st, "generator", None) is not None and hasattr(st, "get_qubit_operands") and st.__class__.__name__ != "Measure" and st.__class__.__name__ != "Reset":
+                c4.ir.add_gate(st.generator(*st.arguments))
+        c4.map(HardcodedMapper(n, Mapping(perm)))
+        if str(c3) != txt3 or W.diff(w3, W.w_circuit(c3), 0.0):
+            run.violation("mapping a circuit built from another circuit's generators and arguments modified the original", {"src": src, "perm": perm})
     # across processes and hash seeds
     script = os.path.join(os.path.dirname(os.path.abspath(__file__)), "c17_worker.py")
     seeds = ["0", "1", "2", "random"] if not run.quick() else ["0", "random"]
@@ -776,13 +808,19 @@ def check_C19(run: Run):
         regs = [40, 64, 1000] + ([100000] if True else [])
         al = pass_alphabet()
         for reg in regs:
-            for it in range(run.n(6, 60) if reg < 100000 else run.n(2, 12)):
+            for it in range(run.n(8, 60) if reg < 100000 else run.n(6, 18)):
                 k = rng.randint(2, 4)
                 base = g.circuit(n=k, kinds="all", allow_band=False, length=rng.randint(4, 24), max_outcomes=2)
-                place = rng.choice(["low", "high", "random"])
-                idx = list(range(k)) if place == "low" else list(range(reg - k, reg)) if place == "high" else sorted(rng.sample(range(reg), k))
+                if it % 6 in (0, 1, 5):      # two-qubit gates between the lowest and the highest placed qubit
+                    import opensquirrel.default_gates as _dg
+                    base["stmts"].append(W.w_stmt(_dg.CNOT(0, k - 1))); base["stmts"].append(W.w_stmt(_dg.CZ(k - 1, 0)))
+                place = ["spread", "random", "low", "high"][it % 4]
+                idx = list(range(k)) if place == "low" else list(range(reg - k, reg)) if place == "high" else \
+                    ([0] + sorted(rng.sample(range(1, reg - 1), k - 2)) + [reg - 1]) if place == "spread" else sorted(rng.sample(range(reg), k))
                 big = {"nq": reg, "nb": base["nb"], "stmts": [spec_map_stmt(s, {i: idx[i] for i in range(k)}) for s in base["stmts"]]}
                 seq = [rng.choice([p for p in al if p[0] != "writeparse"]) for _ in range(rng.randint(1, 3))]
+                forced = [("decompose", "CNOT"), ("replace", "CNOT"), ("map", "cycle"), ("merge",), ("decompose", "ZYZ"), ("replace", "CZ")]
+                seq = [forced[it % len(forced)]] + seq[:2]
                 run.count({"reg": reg, "base": base, "seq": seq, "idx": idx}, tag=f"reg{reg}")
                 sizes.clear()
                 t0 = time.time()
